@@ -125,10 +125,15 @@ def meta(r, wild=True):
 
 BUCKET_IDS = ["b0", "b1", "b2", "b3"]
 UNICODE_BUCKET_IDS = ["aw-watcher-window_höst", "b/ü", "б2", "b 3"]
+CASE_BUCKET_IDS = ["aw-watcher-afk_Laptop", "aw-watcher-afk_laptop", "AW-WATCHER-AFK_LAPTOP", "b0"]  # differ only in case
 
 
 def bucket_ids(r, n, unicode_ok=False):
     pool = list(BUCKET_IDS)
-    if unicode_ok and r.random() < 0.4:
-        pool = list(UNICODE_BUCKET_IDS)
+    if unicode_ok:
+        x = r.random()
+        if x < 0.35:
+            pool = list(UNICODE_BUCKET_IDS)
+        elif x < 0.5:
+            pool = list(CASE_BUCKET_IDS)
     return pool[:n]
